@@ -21,7 +21,7 @@ import (
 
 func init() {
 	register(&Rule{ID: "R-default-twins", Floor: 12, Run: ruleDefaultTwins,
-		Doc: "C04/C16: default/zero values per type kind agree between the engines. A default builder is a library function from an analyzer type to a value that switches on the type's kind; its table (kind -> constructor, constant arguments, and for composite kinds which builder produces the components) is extracted from runtime/value and interpreter/value (helpers inlined, `v := Value(x); return &v` and literal/constructor forms normalised). Consumers are the engine call sites (compiler+runtime for the VM, interpreter for the tree walker), paired by the syntax-tree field whose type they default (e.g. the singleton's declared type). For every shared consumer role and every type kind the rows must be equal; a composite row must recurse into the builder itself — a field default produced by another builder (one that returns an object without fields, or a different range) makes `@S type S = { inner: { n: int } }` start as a different value in the two engines, and member access on the missing field is a Go panic."})
+		Doc: "C04/C16: default/zero values per type kind agree between the engines. A default builder is a library function from an analyzer type to a value that switches on the type's kind; its table (kind -> constructor, constant arguments, and for composite kinds which builder produces the components) is extracted from runtime/value and interpreter/value (helpers inlined, `v := Value(x); return &v` and literal/constructor forms normalised). Consumers are the engine call sites (compiler+runtime for the VM, interpreter for the tree walker), paired by the syntax-tree field whose type they default (e.g. the singleton's declared type). For every shared consumer role and every type kind the rows must be equal; a composite row must recurse into the builder itself — a field default produced by another builder (one that returns an object without fields, or a different range) makes `@S type S = { inner: { n: int } }` start as a different value in the two engines, and member access on the missing field is a Go panic. A kind without a row (the builders panic) must be rejected by the analyzer wherever a default is needed: the kinds the consumer's type conversion can produce without reporting an error, intersected with the kinds the builders panic on, must be covered by a rejection guard (an error report conditioned on a kind predicate applied to the converted type, which looks into the components of recursively built kinds) in the analyzer function that builds the consumer node."})
 }
 
 type r3dBuilder struct {
@@ -486,6 +486,20 @@ func ruleDefaultTwins(c *Ctx) []Obligation {
 			obs = append(obs, Obligation{Key: "default|" + role + "|tables", Status: Undecided, Pos: c.Pos(bv.fd.Pos()), Detail: "cannot read a builder's switch: " + bv.why + " " + bi.why})
 			continue
 		}
+		// kinds without a row must not reach the builders
+		panicKinds, recursive := map[string]bool{}, map[string]bool{}
+		for _, kind := range an.kinds {
+			for _, r := range []string{bv.rowFor(kind), bi.rowFor(kind)} {
+				if r == "panic" {
+					panicKinds[kind] = true
+				}
+				if strings.Contains(r, "{self}") {
+					recursive[kind] = true
+				}
+			}
+		}
+		rj := r3dAnalyzerRejects(x, role, panicKinds, recursive)
+		obs = append(obs, Obligation{Key: "default|" + role + "|analyzer rejects kinds without a default", Pos: c.Pos(rj.pos), Status: rj.status, Detail: rj.detail, Nontrivial: true})
 		for _, kind := range an.kinds {
 			a, b := bv.rowFor(kind), bi.rowFor(kind)
 			pos := bi.rowPos[kind]
@@ -516,4 +530,340 @@ func ruleDefaultTwins(c *Ctx) []Obligation {
 		obs = append(obs, Obligation{Key: "default|consumers", Status: Undecided, Pos: "?", Detail: "no consumer role is shared by the two engines: cannot pair the default builders"})
 	}
 	return obs
+}
+
+// ---------------------------------------------------------------------------
+// kinds without a default must be rejected where a default is needed
+// ---------------------------------------------------------------------------
+
+type r3dReject struct {
+	status Status
+	detail string
+	pos    token.Pos
+}
+
+// r3dAnalyzerRejects decides, for one consumer role (Owner.Field of an analysed node), whether the
+// analyzer rejects every type kind for which a default builder has no row (panics).
+func r3dAnalyzerRejects(x *r3dCtx, role string, panicKinds map[string]bool, recursive map[string]bool) r3dReject {
+	c := x.c
+	parts := strings.SplitN(role, ".", 2)
+	if len(parts) != 2 || !c.HasPkg("homescript/analyzer") {
+		return r3dReject{status: Undecided, detail: "consumer role " + role + " is not a field of an analysed node"}
+	}
+	p := c.Pkg("homescript/analyzer")
+	info := p.TypesInfo
+	an := x.an
+	// rejecting levels: diagnostic level constants the analyzer compares a diagnostic's level with
+	// (`d.Level == C`, `switch d.Level { case C: … }`); a reporter is a function that mentions such a
+	// constant other than in a comparison (it stores / passes it on as the level of a new diagnostic)
+	rejecting := map[*types.Const]bool{}
+	compared := map[ast.Expr]bool{}
+	isLevelField := func(e ast.Expr, k *types.Const) bool {
+		sel, ok := ast.Unparen(e).(*ast.SelectorExpr)
+		if !ok {
+			return false
+		}
+		v, ok := info.Uses[sel.Sel].(*types.Var)
+		return ok && v.IsField() && types.Identical(v.Type(), k.Type())
+	}
+	for _, fd := range AllFuncDecls(p) {
+		ast.Inspect(fd.Body, func(n ast.Node) bool {
+			switch x := n.(type) {
+			case *ast.BinaryExpr:
+				if x.Op != token.EQL && x.Op != token.NEQ {
+					return true
+				}
+				for _, pair := range [][2]ast.Expr{{x.X, x.Y}, {x.Y, x.X}} {
+					if k := ConstOf(info, pair[1]); k != nil && isLevelField(pair[0], k) {
+						compared[pair[1]] = true
+						if x.Op == token.EQL {
+							rejecting[k] = true
+						}
+					}
+				}
+			case *ast.SwitchStmt:
+				if x.Tag == nil {
+					return true
+				}
+				for _, cl := range x.Body.List {
+					for _, e := range cl.(*ast.CaseClause).List {
+						if k := ConstOf(info, e); k != nil && isLevelField(x.Tag, k) {
+							compared[e] = true
+							rejecting[k] = true
+						}
+					}
+				}
+			}
+			return true
+		})
+	}
+	reporters := map[*types.Func]bool{}
+	decls := map[*types.Func]*ast.FuncDecl{}
+	for _, fd := range AllFuncDecls(p) {
+		fn, ok := info.Defs[fd.Name].(*types.Func)
+		if !ok {
+			continue
+		}
+		decls[fn] = fd
+		ast.Inspect(fd.Body, func(n ast.Node) bool {
+			if e, ok := n.(ast.Expr); ok && !compared[e] {
+				if _, isSel := e.(*ast.SelectorExpr); isSel {
+					if k := ConstOf(info, e); k != nil && rejecting[k] {
+						reporters[fn] = true
+					}
+					return false
+				}
+				if id, isID := e.(*ast.Ident); isID {
+					if k, ok := info.Uses[id].(*types.Const); ok && rejecting[k] {
+						reporters[fn] = true
+					}
+				}
+			}
+			return true
+		})
+	}
+	if len(reporters) == 0 {
+		return r3dReject{status: Undecided, detail: "no error reporter found in the analyzer (a method that records a diagnostic of the level the analyzer tests for failure)"}
+	}
+	callsReporter := func(n ast.Node) bool {
+		found := false
+		ast.Inspect(n, func(m ast.Node) bool {
+			if call, ok := m.(*ast.CallExpr); ok && reporters[CalleeOf(info, call)] {
+				found = true
+			}
+			return true
+		})
+		return found
+	}
+	// the analyzer function that builds the node: literal Owner{… Field: V …}
+	var site *ast.FuncDecl
+	var val ast.Expr
+	for _, fd := range AllFuncDecls(p) {
+		ast.Inspect(fd.Body, func(n ast.Node) bool {
+			cl, ok := n.(*ast.CompositeLit)
+			if !ok {
+				return true
+			}
+			nt, ok := types.Unalias(info.TypeOf(cl)).(*types.Named)
+			if !ok || nt.Obj().Name() != parts[0] || nt.Obj().Pkg() != an.pkg.Types {
+				return true
+			}
+			for _, el := range cl.Elts {
+				if kv, ok := el.(*ast.KeyValueExpr); ok {
+					if id, ok := kv.Key.(*ast.Ident); ok && id.Name == parts[1] {
+						site, val = fd, kv.Value
+					}
+				}
+			}
+			return true
+		})
+	}
+	if site == nil {
+		return r3dReject{status: Undecided, detail: "no analyzer function builds " + role}
+	}
+	// V: a local defined by a call of the type converter
+	vobj := r2tObj(info, val)
+	var conv *ast.FuncDecl
+	if id, ok := ast.Unparen(val).(*ast.Ident); ok {
+		if def := r2tSingleDef(info, site, id); def != nil {
+			if call, ok := ast.Unparen(def).(*ast.CallExpr); ok {
+				conv = decls[CalleeOf(info, call)]
+			}
+		}
+	}
+	if conv == nil || vobj == nil {
+		return r3dReject{status: Undecided, pos: site.Pos(), detail: "cannot see which conversion produces " + role + " in " + FuncName(site)}
+	}
+	// kinds the converter can produce without having reported an error
+	ctorKind := func(e ast.Expr) string {
+		call, ok := ast.Unparen(e).(*ast.CallExpr)
+		if !ok {
+			return ""
+		}
+		fd := an.decls[CalleeOf(info, call)]
+		if fd == nil {
+			return ""
+		}
+		kind := ""
+		ast.Inspect(fd.Body, func(n ast.Node) bool {
+			if cl, ok := n.(*ast.CompositeLit); ok {
+				if nt, ok := types.Unalias(an.info.TypeOf(cl)).(*types.Named); ok {
+					if aim := an.byType[nt.Obj()]; aim != nil {
+						kind = aim.kind.Name()
+					}
+				}
+			}
+			return true
+		})
+		return kind
+	}
+	produced := map[string]bool{}
+	var stack []ast.Node
+	ast.Inspect(conv.Body, func(n ast.Node) bool {
+		if n == nil {
+			stack = stack[:len(stack)-1]
+			return true
+		}
+		stack = append(stack, n)
+		r, ok := n.(*ast.ReturnStmt)
+		if !ok || len(r.Results) != 1 {
+			return true
+		}
+		k := ctorKind(r.Results[0])
+		if k == "" {
+			return true
+		}
+		erroring := false
+		for i := len(stack) - 2; i >= 0; i-- {
+			if _, isClause := stack[i].(*ast.CaseClause); isClause {
+				break
+			}
+			if blk, ok := stack[i].(*ast.BlockStmt); ok && blk != conv.Body && callsReporter(blk) {
+				erroring = true
+			}
+		}
+		if !erroring {
+			produced[k] = true
+		}
+		return true
+	})
+	if len(produced) < 3 {
+		return r3dReject{status: Undecided, pos: conv.Pos(), detail: fmt.Sprintf("only %d type kinds recognised as results of %s", len(produced), FuncName(conv))}
+	}
+	need := map[string]bool{}
+	for k := range produced {
+		if panicKinds[k] {
+			need[k] = true
+		}
+	}
+	// the rejection guard in the building function: a reporter call under a condition on V's kinds
+	rejected := map[string]bool{}
+	recurses := map[string]bool{}
+	guard := ""
+	mentionsV := func(n ast.Node) bool {
+		found := false
+		ast.Inspect(n, func(m ast.Node) bool {
+			if id, ok := m.(*ast.Ident); ok && r2tObj(info, id) == vobj {
+				found = true
+			}
+			return true
+		})
+		return found
+	}
+	kindsOfPredicate := func(fd *ast.FuncDecl) {
+		self, _ := info.Defs[fd.Name].(*types.Func)
+		ast.Inspect(fd.Body, func(n ast.Node) bool {
+			cc, ok := n.(*ast.CaseClause)
+			if !ok {
+				return true
+			}
+			positive := false
+			for _, st := range cc.Body {
+				if r, ok := st.(*ast.ReturnStmt); ok && len(r.Results) >= 1 {
+					tv := info.Types[r.Results[0]]
+					if !tv.IsNil() && !(tv.Value != nil && tv.Value.ExactString() == "false") {
+						positive = true
+					}
+				}
+			}
+			rec := false
+			ast.Inspect(cc, func(m ast.Node) bool {
+				if call, ok := m.(*ast.CallExpr); ok && CalleeOf(info, call) == self {
+					rec = true
+				}
+				return true
+			})
+			for _, e := range cc.List {
+				if k := ConstOf(info, e); k != nil {
+					if positive {
+						rejected[k.Name()] = true
+					}
+					if rec {
+						recurses[k.Name()] = true
+					}
+				}
+			}
+			return true
+		})
+	}
+	ast.Inspect(site.Body, func(n ast.Node) bool {
+		switch s := n.(type) {
+		case *ast.IfStmt:
+			if !callsReporter(s.Body) {
+				return true
+			}
+			parts := []ast.Node{s.Init, s.Cond}
+			// a condition held in a local: `bad := pred(v); if bad { … }`
+			ast.Inspect(s.Cond, func(m ast.Node) bool {
+				if id, ok := m.(*ast.Ident); ok {
+					if def := r2tSingleDef(info, site, id); def != nil {
+						parts = append(parts, def)
+					}
+				}
+				return true
+			})
+			for _, part := range parts {
+				if part == nil || isNilNode(part) {
+					continue
+				}
+				ast.Inspect(part, func(m ast.Node) bool {
+					call, ok := m.(*ast.CallExpr)
+					if !ok || !mentionsV(call) {
+						return true
+					}
+					if fd := decls[CalleeOf(info, call)]; fd != nil && !reporters[CalleeOf(info, call)] {
+						guard = FuncName(fd)
+						kindsOfPredicate(fd)
+					}
+					return true
+				})
+			}
+		case *ast.SwitchStmt:
+			if s.Tag == nil || !mentionsV(s.Tag) {
+				return true
+			}
+			for _, cl := range s.Body.List {
+				cc := cl.(*ast.CaseClause)
+				if !callsReporter(cc) {
+					continue
+				}
+				guard = "switch " + exprStr(s.Tag)
+				for _, e := range cc.List {
+					if k := ConstOf(info, e); k != nil {
+						rejected[k.Name()] = true
+					}
+				}
+			}
+		}
+		return true
+	})
+	var missing, shallow []string
+	for _, k := range mbSortedKeys(need) {
+		if !rejected[k] {
+			missing = append(missing, mbShortKind(k))
+		}
+	}
+	if len(need) > 0 {
+		for _, k := range mbSortedKeys(recursive) {
+			if produced[k] && !recurses[k] && !rejected[k] {
+				shallow = append(shallow, mbShortKind(k))
+			}
+		}
+	}
+	var needL, prodL []string
+	for _, k := range mbSortedKeys(need) {
+		needL = append(needL, mbShortKind(k))
+	}
+	for _, k := range mbSortedKeys(produced) {
+		prodL = append(prodL, mbShortKind(k))
+	}
+	desc := fmt.Sprintf("%s builds %s from %s, which can yield the kinds {%s}; the default builders have no row for {%s} of them", FuncName(site), role, FuncName(conv), strings.Join(prodL, ", "), strings.Join(needL, ", "))
+	switch {
+	case len(missing) > 0:
+		return r3dReject{status: Violated, pos: site.Pos(), detail: desc + "; the analyzer does not reject {" + strings.Join(missing, ", ") + "} there (guard: " + map[bool]string{true: "none", false: guard}[guard == ""] + "): an accepted program whose declaration has such a type makes the default builder panic in both engines (host crash), e.g. a singleton of a function type"}
+	case len(shallow) > 0:
+		return r3dReject{status: Violated, pos: site.Pos(), detail: desc + "; the guard " + guard + " does not look into the components of {" + strings.Join(shallow, ", ") + "}, whose defaults are built recursively: a nested type without a default still reaches the builder"}
+	default:
+		return r3dReject{status: Discharged, pos: site.Pos(), detail: desc + "; all of them are rejected by " + guard + " (components of recursively built kinds are inspected)"}
+	}
 }
